@@ -107,6 +107,8 @@ class TaskSet : public TaskSetBase {
   DISPENSO_REQUIRES(OnceCallableFunc<F>)
   void schedule(F&& f) {
     if (DISPENSO_EXPECT(canceled(), false)) {
+      // Not scheduled and never run: a OnceFunction must be released explicitly.
+      detail::discardSkippedTask(f);
       return;
     }
     if (outstandingTaskCount_.load(std::memory_order_relaxed) > taskSetLoadFactor_) {
@@ -303,6 +305,8 @@ class ConcurrentTaskSet : public TaskSetBase {
     // A canceled set starts no further task bodies.  The queued paths below test the flag inside the
     // packaged task, but the inline fall-backs for an overloaded pool would run f() unconditionally.
     if (DISPENSO_EXPECT(canceled(), false)) {
+      // Not scheduled and never run: a OnceFunction must be released explicitly.
+      detail::discardSkippedTask(f);
       return;
     }
     if (cost_ == TaskCost::kHeavy) {
